@@ -31,9 +31,10 @@ class ExprMixin:
             if self.exc_expected(ecls):
                 s2 = st.fork().assume(cond)
                 out.append((s2, Exc(ecls, node=node)))
+                st = st.assume(Not(cond))
             else:
                 self.obl("safe", node, st, Not(cond), detail=f"{ecls.__name__} at {self.src_of(node)}")
-            st = st.assume(Not(cond))
+                st = st.assume(Not(cond), fact=True)      # a consequence of the safe obligation, not a branch condition
         out.append((st, val))
         return out
 
